@@ -111,6 +111,65 @@ def model_check(chk, nthreads, maxjobs, locking):
     return r
 
 
+LAYOUT_FUNCS = {'best_layout', 'smart_fitting_predicate', 'fast_fitting_predicate', 'normalize', 'when_broken',
+                'when_flat', 'normalize_doc'}
+CC_CFG = "INIT Init\nNEXT Next\nINVARIANT Report\nCHECK_DEADLOCK FALSE\n"
+
+
+def layout_path_scenario(chk):
+    """Two threads printing values that need line breaking, switched at line boundaries inside
+    layout.py / doctypes.py (the engine keeps no shared state; a scratch buffer or cache
+    introduced there must not leak between calls). Judged by spec/ConcurrentCalls.tla."""
+    import prettyprinter.layout as LAY
+    import prettyprinter.doctypes as DTY
+    q = chk.tier == 'quick'
+    wide = [[1, 2, 3], ['four', 'five'], {'k': (6, 7)}]
+    small = [1, [2]]
+    jobs = [(wide, 12), (small, 79), (wide, 30)]
+    with warnings.catch_warnings():
+        warnings.simplefilter('ignore')
+        seq = [P.pformat(v, width=w) for v, w in jobs]
+    texts = {t: i + 1 for i, t in enumerate(dict.fromkeys(seq))}
+
+    def job(i):
+        def fn():
+            with warnings.catch_warnings():
+                warnings.simplefilter('ignore')
+                return P.pformat(jobs[i][0], width=jobs[i][1])
+        return fn
+
+    def got(r):
+        return texts.get(r[1], 0) if r[0] == 'ok' else -1
+
+    pairs = [(0, 1), (1, 0), (0, 2), (2, 0)]
+    cases = []
+    meta = {}
+    files = [LAY.__file__, DTY.__file__]
+    for a, b in pairs:
+        _, _, nsteps = sched.run_with_preemption(job(a), job(b), None, files)
+        stride = max(1, nsteps // (150 if q else 1500))
+        for k in range(1, nsteps + 1, stride):
+            ra, rb, _ = sched.run_with_preemption(job(a), job(b), k, files)
+            calls = [{'t': 1, 'seq': texts[seq[a]], 'got': got(ra)}, {'t': 2, 'seq': texts[seq[b]], 'got': got(rb)}]
+            cid = len(cases) + 1
+            cases.append({'id': cid, 'calls': calls})
+            meta[cid] = {'threads': ['pformat(%r, width=%d)' % jobs[a], 'pformat(%r, width=%d)' % jobs[b]],
+                         'thread_0_preempted_before_its_layout_line': k, 'results': [ra, rb]}
+            chk.nontrivial(('layout', a, b, k))
+    v, st = common.tlc_batch('ConcurrentCalls', CC_CFG, cases, os.path.join(chk.workdir, 'cc'), tags=('SAFE',),
+                             min_per_shard=100)
+    chk.add_model(st)
+    nv = 0
+    for c in cases:
+        if c['id'] not in v['SAFE']:
+            nv += 1
+            chk.violation('C20.sequential', 'two concurrent pformat calls switched inside the layout engine: a call did not '
+                          'return its sequential text / raised: %r' % (meta[c['id']],), meta[c['id']])
+    chk.stage('layout-path schedules', executions=len(cases), violations=nv)
+    chk.cov['traces_validated_against_impl'] += len(cases)
+    return len(cases)
+
+
 def check_c20(chk, args):
     q = chk.tier == 'quick'
     locks = module_locks()
@@ -188,8 +247,9 @@ def check_c20(chk, args):
                     locking, m['programs'], m['preemption_plan'],
                     [(e['t'], e['ev'], e['res']) for e in c['events']]))
         chk.stage('tlc.validate', threads=n, traces=len(cases), states=st['distinct'])
+    nsched += layout_path_scenario(chk)
     chk.cov['evaluations'] = nsched
-    chk.cov['traces_validated_against_impl'] = nsched
+    chk.cov['traces_validated_against_impl'] += nsched
     chk.cov['rule'] = ('executions of 2-3 threads printing lazily registered / subclass / directly registered / '
                        'unregistered instances under every preemption plan with <= %d preemptions at package '
                        'line boundaries of the dispatch path (deterministic sys.settrace scheduler); non-trivial = '
